@@ -6,10 +6,14 @@
 exception Bad_case of string
 exception Unrepresentable of string
 
-let is_cmd t = t = "POST" || t = "GET" || t = "MSGq" || t = "MSGs"
+let is_digits_fwd = ref (fun (_ : string) -> false)
+let is_set t = String.length t > 4 && (String.sub t 0 4 = "SETq" || String.sub t 0 4 = "SETs")
+               && !is_digits_fwd (String.sub t 4 (String.length t - 4))
+let is_cmd t = t = "POST" || t = "GET" || t = "MSGq" || t = "MSGs" || is_set t
 
 let is_digits s = s <> "" && (let ok = ref true in String.iter (fun c -> if c < '0' || c > '9' then ok := false) s; !ok)
 
+let () = is_digits_fwd := is_digits
 let tail s k = String.sub s k (String.length s - k)
 
 (* condition keys ("h3.0") -> N, per case *)
@@ -152,7 +156,7 @@ let parse_post_d (ts : string list) : tree * int * [ `Normal | `ReadErr | `Meth 
          | Some p when p >= 1 && p <= 99 -> pre true r
          | _ -> raise (Bad_case t))
     | "TRAIL" :: r -> pre true r
-    | "PAD" :: r -> pre mangled r
+    | "PAD" :: r | "LPAD" :: r | "SPACED" :: r -> pre mangled r
     | "TCP" :: r -> set `Normal; pre mangled r
     | t :: r when (has_prefix "RDERR" t || has_prefix "TCPCL" t || has_prefix "TCPCH" t) ->
         if not (pct_ok 0 (tail t 5)) then raise (Bad_case t);
@@ -222,12 +226,18 @@ let check_bits (mts : string list) (bits : (string * n * bool) list) : (n -> boo
   end;
   cond_of tbl m
 
-let take_msg_out (mts : string list) (outs : string list) : (n -> bool) * n list * n list * string list =
+let take_msg_out (mts : string list) (outs : string list)
+  : (n -> bool) * n list * n list * nat list * string list =
   let (bits, r) = read_bits outs in
   let cond = check_bits mts bits in
   match r with
-  | t :: e :: r' when String.length t > 0 && t.[0] = 'T' && String.length e > 0 && e.[0] = 'E' ->
-      (cond, parse_ids (tail t 1), parse_ids (tail e 1), r')
+  | t :: e :: o :: r' when String.length t > 0 && t.[0] = 'T' && String.length e > 0 && e.[0] = 'E'
+                          && String.length o > 1 && o.[0] = 'O' ->
+      let org =
+        if o = "O-" then []
+        else List.map (fun x -> if is_digits x then nat_of_int (int_of_string x) else raise (Unrepresentable o))
+               (String.split_on_char '+' (tail o 1)) in
+      (cond, parse_ids (tail t 1), parse_ids (tail e 1), org, r')
   | x :: _ -> raise (Unrepresentable x)
   | [] -> raise (Unrepresentable "missing-output")
 
@@ -235,7 +245,8 @@ let pr_ids l = String.concat "," (List.map dec_of_n l)
 let pr_outcome = function Rejected -> "REJ" | Ran (t, e) -> "T" ^ pr_ids t ^ "_E" ^ pr_ids e
 let pr_obs = function
   | OStatus b -> if b then "S200" else "S400"
-  | OOut (t, e) -> "T" ^ pr_ids t ^ "_E" ^ pr_ids e
+  | OOut (t, e, o) -> "T" ^ pr_ids t ^ "_E" ^ pr_ids e ^ "_O" ^ String.concat "+" (List.map (fun x -> string_of_int (int_of_nat x)) o)
+  | OSet -> "OK"
   | OCfg None -> "G-"
   | OCfg (Some i) -> "G" ^ string_of_int (int_of_nat i)
   | ORefused c -> "S" ^ dec_of_n c
@@ -267,7 +278,7 @@ let judge _name ins outs =
                     | (c, mts) :: mr ->
                         (try
                            let k = if c = "MSGq" then KReq else KRes in
-                           let (cond, tr, er, outs') = take_msg_out mts outs in
+                           let (cond, tr, er, _, outs') = take_msg_out mts outs in
                            let o = Ran (tr, er) in
                            if not (c12_ok k cond t o) then
                              VPropfail ("tree_meaning",
@@ -300,6 +311,15 @@ let judge _name ins outs =
                     go cr o' (c :: acc_c) (ORefused (n_of_dec (tail s 1)) :: acc_o)
                 | x :: _ -> raise (Unrepresentable x)
                 | [] -> raise (Unrepresentable "missing-output"))
+           | (c, ts) :: cr when is_set c ->
+               if ts <> [] then raise (Bad_case "SET args");
+               let id = tail c 4 in
+               let o = if id = "0" then None else Some (n_of_dec id) in
+               let cmd = if c.[3] = 'q' then SetReq o else SetRes o in
+               (match outs with
+                | "OK" :: o' -> go cr o' (cmd :: acc_c) (OSet :: acc_o)
+                | x :: _ -> raise (Unrepresentable x)
+                | [] -> raise (Unrepresentable "missing-output"))
            | ("GET", ts) :: cr ->
                if ts <> [] then raise (Bad_case "GET args");
                (match outs with
@@ -309,7 +329,7 @@ let judge _name ins outs =
                     (* the returned text is the body of every listed POST (identical bodies):
                        it is the model's answer if that is among them *)
                     let cands = List.map int_of_string (String.split_on_char '+' (tail g 1)) in
-                    let pred = match List.rev (spec_script O None (List.rev (Get :: acc_c))) with
+                    let pred = match List.rev (spec_script O s_init (List.rev (Get :: acc_c))) with
                       | OCfg (Some i) :: _ -> Some (int_of_nat i) | _ -> None in
                     let pick = match pred with
                       | Some i when List.mem i cands -> i
@@ -321,14 +341,14 @@ let judge _name ins outs =
                incr nmsgs;
                check_msg ts;
                let k = if c = "MSGq" then KReq else KRes in
-               let (cond, tr, er, o') = take_msg_out ts outs in
-               go cr o' (Probe (k, cond) :: acc_c) (OOut (tr, er) :: acc_o) in
+               let (cond, tr, er, org, o') = take_msg_out ts outs in
+               go cr o' (Probe (k, cond) :: acc_c) (OOut (tr, er, org) :: acc_o) in
          let (cs, obs) = go cmds outs [] [] in
          if c12_script_ok cs obs then begin
            if not (impl_script_agrees cs obs) then VDisagree "martianhttp-model-differs-from-spec(theorem C12_reconfiguration broken?)"
            else VOk (!nposts >= 2 && !nmsgs >= 1)
          end else begin
-           let want = spec_script O None cs in
+           let want = spec_script O s_init cs in
            let k = match first_diff O obs want with Some k -> int_of_nat k | None -> -1 in
            let clause =
              match (try Some (List.nth obs k) with _ -> None) with
@@ -337,6 +357,7 @@ let judge _name ins outs =
              | Some (OOut _) -> "active_config"
              | Some (OCfg _) -> "reported_config"
              | Some (ORefused _) -> "refusal_status"
+             | Some OSet -> "setter_status"
              | None -> "script_shape" in
            VPropfail (clause, Printf.sprintf "first-diff-at-command=%d want=%s got=%s" k
                         (String.concat "_" (List.map pr_obs want)) (String.concat "_" (List.map pr_obs obs)))
